@@ -145,11 +145,37 @@ fn rename_rule_variables(rule: &Rule, counter: &mut usize) -> Rule {
     }
 }
 
+/// Smallest n such that no variable of `pattern` is called `v<m>` with m >= n.
+fn first_free_variable_index(pattern: &TriplePattern) -> usize {
+    fn scan(term: &Term, next: &mut usize) {
+        match term {
+            Term::Variable(v) => {
+                if let Some(n) = v.strip_prefix('v').and_then(|d| d.parse::<usize>().ok()) {
+                    *next = (*next).max(n.saturating_add(1));
+                }
+            }
+            Term::QuotedTriple(qt) => {
+                scan(&qt.0, next);
+                scan(&qt.1, next);
+                scan(&qt.2, next);
+            }
+            Term::Constant(_) => {}
+        }
+    }
+    let mut next = 0;
+    scan(&pattern.0, &mut next);
+    scan(&pattern.1, &mut next);
+    scan(&pattern.2, &mut next);
+    next
+}
+
 impl Reasoner {
     /// Returns all variable bindings that satisfy `query` via backward chaining.
     pub fn backward_chaining(&self, query: &TriplePattern) -> Vec<HashMap<String, Term>> {
         let bindings = HashMap::new();
-        let mut variable_counter = 0;
+        // Generated rule variables are called v<n>: start numbering above every goal
+        // variable of that form so that a goal such as (?v0 p ?v1) cannot be captured.
+        let mut variable_counter = first_free_variable_index(query);
         self.backward_chaining_helper(query, &bindings, 0, &mut variable_counter)
     }
 
